@@ -4,13 +4,17 @@ from __future__ import annotations
 
 import ast
 import contextlib
+import gc
+import inspect
 import io
+import warnings
 from typing import Any
 
 from .. import core, pyz
 
 SETTINGS = {"missing_f": True, "use_fstrings": True, "unused_variable": True, "too_many_positional_args": True,
-            "unused_ignore": True}
+            "unused_ignore": True, "missing_await": True}
+REAL_CODE = {"unused_comp": "unused_variable"}     # abstract kind -> error code it is reported under
 OPTIONS = {"maximum_positional_args": 2}
 FIXABLE = set(SETTINGS)
 
@@ -19,6 +23,9 @@ PRELUDE = '''def g3(a: int, b: int, c: int) -> tuple[int, int, int]:
 
 def h3(a: int, b: int, c: object) -> tuple[int, int, object]:
     return (a, b, c)
+
+async def aco(a: int) -> int:
+    return a
 '''
 
 
@@ -31,10 +38,19 @@ def fragment_source(i: int, frag: dict) -> str:
         expr = '"v %s %s" % (name, n)'
     elif k == "too_many_positional_args":
         expr = "g3(n, n, 2)"
-    elif k == "unused_ignore":
-        expr = "name"
+    elif k == "unused_comp":
+        expr = f"[name for q_{i} in range(n)]"
     else:
         expr = "name"
+    if k == "missing_await":
+        call = ["aco(", "    n", ")"] if c == "multiline" else [f"aco(n){note}"]
+        body = call + ["return name"]
+        lines = [f"async def fr_{i}(name: str, n: int) -> object:"]
+        if c == "in_if":
+            lines += ["    if n >= 0:"] + ["        " + b for b in body] + ['    return ""']
+        else:
+            lines += ["    " + b for b in body]
+        return "\n".join(lines) + "\n"
     if c == "multiline":
         ret = ["return (", f"    {expr}", ")"]
     elif c == "dict_unpack":
@@ -78,12 +94,12 @@ def check_and_fix(src: str):
 
 
 def _funcs(src: str) -> dict[str, str]:
-    return {n.name: ast.dump(n) for n in ast.parse(src).body if isinstance(n, ast.FunctionDef)}
+    return {n.name: ast.dump(n) for n in ast.parse(src).body if isinstance(n, (ast.FunctionDef, ast.AsyncFunctionDef))}
 
 
 def _frag_of_line(src: str, lineno: int) -> int:
     for n in ast.parse(src).body:
-        if isinstance(n, ast.FunctionDef) and n.name.startswith("fr_") and n.lineno <= lineno <= n.end_lineno:
+        if isinstance(n, (ast.FunctionDef, ast.AsyncFunctionDef)) and n.name.startswith("fr_") and n.lineno <= lineno <= n.end_lineno:
             return int(n.name[3:])
     return 0
 
@@ -107,7 +123,18 @@ def _behaviour(src: str, name: str) -> Any:
     ns: dict[str, Any] = {}
     try:
         exec(compile(src, "<fix>", "exec", dont_inherit=True), ns)
-        return ("ok", ns[name]("bob", 3))
+        with warnings.catch_warnings():
+            warnings.simplefilter("ignore")          # "coroutine ... was never awaited" before the missing_await fix
+            r = ns[name]("bob", 3)
+            if inspect.iscoroutine(r):
+                try:
+                    r.send(None)
+                    r.close()
+                    return ("ok", "<suspended>")
+                except StopIteration as stop:
+                    r = stop.value
+            gc.collect()
+        return ("ok", r)
     except Exception as exc:  # noqa: BLE001
         return ("raised", type(exc).__name__)
 
@@ -130,7 +157,9 @@ def observe_one(arg: tuple[int, dict]) -> list[dict]:
             break
         first = fixable[0]
         frag = _frag_of_line(src, first[1])
-        kind = first[0]
+        kind = code = first[0]
+        if 1 <= frag <= len(prog) and REAL_CODE.get(prog[frag - 1]["kind"]) == code:
+            kind = prog[frag - 1]["kind"]       # abstract kind of the fragment (reported under `code`)
         try:
             ast.parse(new_src)
             parses = True
@@ -142,9 +171,9 @@ def observe_one(arg: tuple[int, dict]) -> list[dict]:
             old_by = sorted((f[0], _frag_of_line(src, f[1])) for f in fails)
             new_by = sorted((f[0], _frag_of_line(new_src, f[1])) for f in after)
             expect = list(old_by)
-            if (kind, frag) in expect:
-                expect.remove((kind, frag))
-            gone = (kind, frag) not in new_by or new_by.count((kind, frag)) < old_by.count((kind, frag))
+            if (code, frag) in expect:
+                expect.remove((code, frag))
+            gone = (code, frag) not in new_by or new_by.count((code, frag)) < old_by.count((code, frag))
             others_same = new_by == expect
             fo, fn = _funcs(src), _funcs(new_src)
             changed = {k for k in fo if fo[k] != fn.get(k)} | (set(fn) - set(fo))
